@@ -266,6 +266,22 @@ def element_parsing(
             else:
                 if isinstance(element, spt.Measure):
                     current_tl_pos = measure_mapping[element.number]
+                elif isinstance(element, spt.Clef):
+                    # the other staves of the part keep their own clef
+                    already_there = any(
+                        (c.staff, c.sign, c.line, c.octave_change)
+                        == (
+                            element.staff,
+                            element.sign,
+                            element.line,
+                            element.octave_change,
+                        )
+                        for c in part.iter_all(
+                            spt.Clef, start=current_tl_pos, end=current_tl_pos + 1
+                        )
+                    )
+                    if not already_there:
+                        part.add(element, start=current_tl_pos)
 
     return line2pos
 
